@@ -205,6 +205,32 @@ class Verdict:
             lines.append("VIOLATION property=%s replay=%s" % (self.prop, path))
         elif self.broken:
             rc = 1
+            # a proof / correspondence no longer checks and this run saw no concrete failing input: search for one
+            # with other seeds before settling for no-failing-input-found
+            found, tried = None, []
+            if os.environ.get("VERIF_SEARCH") != "1" and any(str(w).startswith("correspondence") for w, _ in self.broken):
+                for s in (self.seed + 1, self.seed + 2):
+                    tried.append(s)
+                    try:
+                        p = subprocess.run([sys.executable, os.path.join(VERIF, "bin", "check"), self.prop, "--tier", self.tier, "--seed", str(s)],
+                                           env=dict(os.environ, VERIF_SEARCH="1"), stdout=subprocess.PIPE, stderr=subprocess.STDOUT, text=True, timeout=3300)
+                    except subprocess.TimeoutExpired:
+                        continue
+                    hit = [l for l in p.stdout.splitlines() if l.startswith("VIOLATION") and "no-failing-input-found" not in l]
+                    if hit:
+                        found = hit[0]
+                        break
+            evidence.setdefault("coverage", {})["failing_input_search"] = {"extra_seeds_tried": tried, "found": found}
+            if found:
+                lines.append(found)
+                evidence["violations"] = 1
+                evidence["wall_s"] = round(time.time() - self.t0, 2)
+                if os.environ.get("VERIF_SEARCH") != "1":
+                    json.dump(evidence, open(os.path.join(EVID, self.prop + ".json"), "w"), indent=1)
+                for l in lines:
+                    print(l)
+                sys.stdout.flush()
+                return 1
             path = os.path.join(REPLAYS, "%s-%s-%d-broken.json" % (self.prop, self.tier, self.seed))
             json.dump({"property": self.prop, "kind": "broken-obligation", "seed": self.seed,
                        "no_longer_checks": [dict(what=w, detail=d) for w, d in self.broken[:50]]},
@@ -213,7 +239,8 @@ class Verdict:
         evidence["violations"] = len(self.unlisted) + (len(self.broken) if not self.unlisted else 0)
         evidence["wall_s"] = round(time.time() - self.t0, 2)
         evidence.setdefault("coverage", {})["known_findings_reobserved"] = {k: v[0] for k, v in self.known_hit.items()}
-        json.dump(evidence, open(os.path.join(EVID, self.prop + ".json"), "w"), indent=1)
+        if os.environ.get("VERIF_SEARCH") != "1":          # a search run of another seed must not overwrite the evidence
+            json.dump(evidence, open(os.path.join(EVID, self.prop + ".json"), "w"), indent=1)
         for l in lines:
             print(l)
         sys.stdout.flush()
